@@ -25,3 +25,12 @@ _PKG = {
 }
 for _p in ("C01", "C02", "C04", "C10", "C11"):
     PROPS[_p] = dict(_PKG)
+
+PROPS["C08"] = {
+    "n": {"quick": 900, "thorough": 30000},
+    "per_shard": 60,
+    "corr_targets": ["Corr/BodyCorr.vo"],
+    "corr": "Corr/BodyCorr.v: Model.Body.step vs Body.Elements after every call, and Model.Body.serialize vs the children of w:body in every saved main part",
+    "trusted_base": ["element identity is tracked by the harness through Go pointer identity"],
+    "assumptions": ["documents are built through the API: at most one section-settings element unless the caller writes Body.Elements directly"],
+}
